@@ -219,7 +219,7 @@ def matrix_cases():
 
 def generate(rng, tier):
     cases = matrix_cases()
-    n_rand, n_dir = (260, 420) if tier == "quick" else (4000, 8000)
+    n_rand, n_dir = (500, 900) if tier == "quick" else (4000, 8000)
     for _ in range(n_rand):
         c = _base.rcase(rng, "C01", 8 if tier == "quick" else 16)
         boost(rng, c, 0.35)
@@ -304,6 +304,17 @@ def same(a, b):
         return list(a) == list(b) and all(same(a[k], b[k]) for k in a)
     if isinstance(a, (list, tuple)):
         return len(a) == len(b) and all(same(x, y) for x, y in zip(a, b))
+    return a == b
+
+
+def same_doc(a, b):
+    """as `same`, but maps compared without order (a document format may sort its keys)"""
+    if type(a) is not type(b):
+        return False
+    if isinstance(a, dict):
+        return set(a) == set(b) and all(same_doc(a[k], b[k]) for k in a)
+    if isinstance(a, (list, tuple)):
+        return len(a) == len(b) and all(same_doc(x, y) for x, y in zip(a, b))
     return a == b
 
 
@@ -424,9 +435,9 @@ def oracle(c, obs):
         back, ref_back = d.get("back"), d.get("ref_back")
         if back is None or back[0] != "ok":
             bad.append("the library cannot parse its own %s document: %r" % (fmt, back))
-        elif same(back[1], masked[1]):
+        elif same_doc(back[1], masked[1]):
             c.setdefault("_fmt_faithful", []).append(fmt)
-        elif ref_back is not None and ref_back[0] == "ok" and not same(ref_back[1], masked[1]):
+        elif ref_back is not None and ref_back[0] == "ok" and not same_doc(ref_back[1], masked[1]):
             c.setdefault("_fmt_lossy", []).append(fmt)        # the format itself does not round-trip this tree (C04's domain)
         else:
             bad.append("%s document written with mask %r decodes to %r, to_tree gives %r" % (fmt, mask, back[1], masked[1]))
